@@ -210,23 +210,50 @@ def mods_str(ctx, mods):
     return '+'.join(on) if on else 'none'
 
 
-def extract_layout(ctx, name, fn_path, opaque=()):
+def extract_layout(ctx, name, fn_path, opaque=(), arg_doms=None):
     eng = Engine(ctx.prog, opaque=opaque)
     f = ctx.fn(fn_path)
     if f['body']['arg_count'] != 4:
         raise Undecided('%s does not take 4 arguments' % fn_path)
-    leaves = eng.run(fn_path, arg_names=['self', 'keycode', 'modifiers', 'handle_ctrl'])
+    leaves = eng.run(fn_path, arg_names=['self', 'keycode', 'modifiers', 'handle_ctrl'], arg_doms=arg_doms)
     check_partition(eng, leaves)
     return LayoutTable(ctx, name, fn_path, leaves, eng)
 
 
+def public_names(ctx, type_path):
+    """names under which a type is exported from the crate (e.g. 'layouts::Us104Key')"""
+    return sorted({e['name'] for e in ctx.facts.get('exports', []) if e['target'] == type_path and e['kind'] == 'Struct'})
+
+
 def extract_all_layouts(ctx, include_wrappers=False):
-    """{name: LayoutTable} for every concrete layout impl found in the program."""
+    """{public name: LayoutTable} for every concrete layout impl found in the program.  A layout is known to its users
+    by the name it is exported under, so that is the key (falls back to the type's own name if it is not exported)."""
     out = {}
     for name, ty, path, wrapper in ctx.layout_impls():
         if wrapper and not include_wrappers:
             continue
-        out[name] = extract_layout(ctx, name, path)
+        t = extract_layout(ctx, name, path)
+        names = [n.split('::')[-1] for n in public_names(ctx, ty.get('path', ''))] if not wrapper else []
+        t.type_name = name
+        for n in (names or [name]):
+            if n in out and out[n] is not t:
+                raise Undecided('two layout types are exported under the name %s' % n)
+            out[n] = t
+            t.name = n if len(names) == 1 else name
+    return out
+
+
+def inherent_layout_shadows(ctx):
+    """[(type name, self_ty, inherent fn, trait fn)] : inherent `map_keycode` methods on types that implement
+    KeyboardLayout - these are what a direct `layout.map_keycode(..)` call resolves to."""
+    out = []
+    for name, ty, path, wrapper in ctx.layout_impls():
+        base = ty['to'] if ty.get('k') == 'ref' else ty
+        for f in ctx.facts['fns']:
+            st = f.get('impl_self') or {}
+            if f['name'] == 'map_keycode' and not f.get('impl_trait') and st.get('k') == 'adt' and st.get('path') == base.get('path') \
+                    and ty.get('k') != 'ref':
+                out.append((name, ty, f['path'], path))
     return out
 
 
@@ -404,7 +431,7 @@ def other_constructors(ctx, self_str, new_path):
     out = []
     short = self_str.split('::')[-1]
     for f in ctx.facts['fns']:
-        if f['path'] == new_path or f.get('derived') or f.get('kind') == 'Closure':
+        if f['path'] == new_path or f.get('kind') == 'Closure':
             continue
         if f['body']['arg_count'] != 0:
             continue
